@@ -87,6 +87,7 @@ type Sim struct {
 	steps        int
 	exited       bool
 	mainReturned bool
+	rare         uint64
 	exitCode     int
 	panicMsg     string
 	last         int
@@ -288,8 +289,11 @@ func (s *Sim) park(t *Task) {
 // YieldMaybe is the dense (sub-statement) scheduling point: it yields only when the run's
 // coin says so, so that dense instrumentation does not drown the schedule in no-op switches.
 func YieldMaybe() {
+	if c := current(); c == nil || c.cfg.YieldDensity <= 0 {
+		return
+	}
 	s, t := me()
-	if t == nil || s.cfg.YieldDensity <= 0 {
+	if t == nil {
 		return
 	}
 	s.mu.Lock()
@@ -652,4 +656,19 @@ func (s *Sim) choose(ids []int) int {
 	default:
 		return fifo()
 	}
+}
+
+// YieldRare is the scheduling point of hot inner loops (alignment kernels): one call in 64
+// is a YieldMaybe, the others cost a counter increment.  The counter is only touched by the
+// running task, so the sampling is a function of the schedule and replays.
+func YieldRare() {
+	c := current()
+	if c == nil || c.cfg.YieldDensity <= 0 {
+		return
+	}
+	c.rare++
+	if c.rare&63 != 0 {
+		return
+	}
+	YieldMaybe()
 }
